@@ -116,64 +116,78 @@ func newIG(m *Module, fn *ssa.Function, diverging map[*ssa.Function]bool) *IG {
 func (g *IG) threadBoolPhis() {
 	g.CondOv = map[int]ssa.Value{}
 	g.Copies = map[int][]int{}
-	for _, b := range g.Fn.Blocks {
-		if len(b.Instrs) == 0 || len(b.Succs) != 2 || b.Succs[0] == b.Succs[1] {
-			continue
-		}
-		ifi, ok := b.Instrs[len(b.Instrs)-1].(*ssa.If)
-		if !ok {
-			continue
-		}
-		phi, ok := ifi.Cond.(*ssa.Phi)
-		if !ok || phi.Block() != b {
-			continue
-		}
-		onlyPhis := true
-		for _, in := range b.Instrs[:len(b.Instrs)-1] {
-			if _, isPhi := in.(*ssa.Phi); !isPhi {
-				if _, isDbg := in.(*ssa.DebugRef); !isDbg {
-					onlyPhis = false
-				}
+	for _, f := range g.Funcs {
+		for _, b := range f.Blocks {
+			if len(b.Instrs) == 0 {
+				continue
 			}
-		}
-		if !onlyPhis {
-			continue
-		}
-		orig := g.First[b] + len(b.Instrs) - 1
-		tTrue, tFalse := g.First[b.Succs[0]], g.First[b.Succs[1]]
-		entry := g.First[b]
-		used := map[*ssa.BasicBlock]int{}
-		for i, p := range b.Preds {
-			// the edge of p that enters b for the i-th time
-			want := used[p]
-			used[p]++
-			pn := g.First[p] + len(p.Instrs) - 1
-			seen := 0
-			for k, sblk := range p.Succs {
-				if sblk != b {
-					continue
+			if _, ok := b.Instrs[0].(*ssa.Phi); !ok {
+				continue
+			}
+			// from the phis, a straight line of effect-free nodes (more phis, the
+			// return of a spliced helper, jumps) to an If that tests one of them
+			cur := g.First[b]
+			orig := -1
+			for steps := 0; steps < 12; steps++ {
+				in := g.Ins[cur]
+				if _, isIf := in.(*ssa.If); isIf {
+					orig = cur
+					break
 				}
-				if seen != want {
-					seen++
-					continue
+				switch in.(type) {
+				case *ssa.Phi, *inlRet, *ssa.Jump, *ssa.DebugRef:
+				default:
+					cur = -1
 				}
-				seen++
-				v := phi.Edges[i]
-				if c, isC := constBool(v); isC {
-					if c {
-						g.Succ[pn][k] = tTrue
-					} else {
-						g.Succ[pn][k] = tFalse
+				if cur < 0 || len(g.Succ[cur]) != 1 {
+					break
+				}
+				cur = g.Succ[cur][0]
+			}
+			if orig < 0 || len(g.Succ[orig]) != 2 || g.Succ[orig][0] == g.Succ[orig][1] {
+				continue
+			}
+			ifi := g.Ins[orig].(*ssa.If)
+			phi, ok := ifi.Cond.(*ssa.Phi)
+			if !ok || phi.Block() != b {
+				continue
+			}
+			tTrue, tFalse := g.Succ[orig][0], g.Succ[orig][1]
+			used := map[*ssa.BasicBlock]int{}
+			for i, p := range b.Preds {
+				// the edge of p that enters b for the i-th time
+				want := used[p]
+				used[p]++
+				pn := g.First[p] + len(p.Instrs) - 1
+				seen := 0
+				for k, sblk := range p.Succs {
+					if sblk != b {
+						continue
 					}
-				} else {
-					n := len(g.Ins)
-					g.Ins = append(g.Ins, ifi)
-					g.Succ = append(g.Succ, []int{tTrue, tFalse})
-					g.CondOv[n] = v
-					g.Copies[orig] = append(g.Copies[orig], n)
-					g.Succ[pn][k] = n
+					if seen != want {
+						seen++
+						continue
+					}
+					seen++
+					if k >= len(g.Succ[pn]) || g.Succ[pn][k] != g.First[b] {
+						continue // already redirected
+					}
+					v := phi.Edges[i]
+					if c, isC := constBool(v); isC {
+						if c {
+							g.Succ[pn][k] = tTrue
+						} else {
+							g.Succ[pn][k] = tFalse
+						}
+					} else {
+						n := len(g.Ins)
+						g.Ins = append(g.Ins, ifi)
+						g.Succ = append(g.Succ, []int{tTrue, tFalse})
+						g.CondOv[n] = v
+						g.Copies[orig] = append(g.Copies[orig], n)
+						g.Succ[pn][k] = n
+					}
 				}
-				_ = entry
 			}
 		}
 	}
